@@ -200,7 +200,9 @@ impl GenCfg {
             mode,
             min_objects: 0,
             max_objects: 8,
-            weights: if mode == 3 { [5, 0, 0, 4] } else { [5, 3, 2, 0] },
+            // "foreign" kinds are legal file content: a hold note (type 128) in an osu!/taiko/catch file, a slider or
+            // spinner in a mania file (seed C14-osu-count-before-convert-hold-arm needed one)
+            weights: if mode == 3 { [10, 1, 1, 8] } else { [10, 6, 4, 1] },
             max_slides: 3,
             dense: false,
             allow_negative_start: false,
